@@ -39,9 +39,13 @@ type job struct {
 	Fault bool
 	Idx   int
 	Torn  bool
+	Conc  bool
 }
 
 func (j job) String() string {
+	if j.Conc {
+		return "C " + strconv.Itoa(j.Idx)
+	}
 	if j.Torn {
 		return "T " + strconv.Itoa(j.Idx)
 	}
@@ -71,6 +75,7 @@ func main() {
 	onlyPlain := flag.Int("only-plain", -1, "run only plain history <index> (reproduction)")
 	onlyFault := flag.Int("only-fault", -1, "run only fault history <index> (reproduction)")
 	onlyTorn := flag.Int("only-torn", -1, "run only torn (double-fault) history <index> (reproduction)")
+	onlyConc := flag.Int("only-conc", -1, "run only concurrent-reader history <index> (reproduction)")
 	workers := flag.Int("workers", 0, "worker processes (default: number of CPUs, max 16)")
 	child := flag.String("child", "", "internal: run as worker with this working directory")
 	template := flag.String("template", "", "internal: template directory for -child")
@@ -109,6 +114,17 @@ func main() {
 		"re-add, more reopens, further episodes), at the end and after a final reopen. One evaluation per double-fault " +
 		"append (op x batch class x left-over class x fraction class x file-descriptor state x tip class x tip relation " +
 		"x previous op) and per history; non-trivial when both faults fired and the call reported failure.")
+	r.Rule("Part 4 (concurrent readers): histories (2 fixed: rounds of 'roll back 6, append 6 others, append filter " +
+		"headers' on a chain of 40; batches and bulk rollbacks of 2100-2600 headers; the rest seeded, <= 60 writes, no " +
+		"reopen) are applied by ONE writer goroutine while 3 reader goroutines keep calling every read method of both " +
+		"stores (tips, by height, by hash, height-from-hash, both locators, ancestor ranges of both stores) on heights " +
+		"and hashes around the moving tip, on rolled-back hashes and on hashes never written. Every call and return is " +
+		"stamped from one atomic counter at the client boundary; porcupine (CheckOperationsVerbose, 60 s, timeout = " +
+		"inconclusive) decides whether the recorded history is linearizable w.r.t. the plain list: model state = number " +
+		"of writes applied, a read is legal in a state iff its answer is the list's answer in that state. One evaluation " +
+		"per history (class x writes bucket x overlapping-reads bucket); non-trivial when at least one read overlapped a " +
+		"write in time. On 'illegal' the reads whose answer no list state between their call and return gives are " +
+		"written out as the witness.")
 	r.Assume("Caller contract the real callers obey (blockmanager.go, chainimport): block batches carry consecutive " +
 		"heights tip+1..; filter headers are written only for heights already in the block store, the last element " +
 		"carries the block hash (block-manager style) or all do (importer style); on a rollback the filter store is " +
@@ -129,6 +145,7 @@ func main() {
 	nPlain := r.Pick(300, 5000)
 	nFault := r.Pick(40, 600)
 	nTorn := r.Pick(80, 1500)
+	nConc := r.Pick(64, 1600)
 
 	scratch := os.Getenv("VERIF_SCRATCH")
 	if scratch == "" {
@@ -149,8 +166,10 @@ func main() {
 	}
 
 	var jobs []job
-	single := *onlyPlain >= 0 || *onlyFault >= 0 || *onlyTorn >= 0
+	single := *onlyPlain >= 0 || *onlyFault >= 0 || *onlyTorn >= 0 || *onlyConc >= 0
 	switch {
+	case *onlyConc >= 0:
+		jobs = []job{{Conc: true, Idx: *onlyConc}}
 	case *onlyPlain >= 0:
 		jobs = []job{{Idx: *onlyPlain}}
 	case *onlyFault >= 0:
@@ -164,6 +183,9 @@ func main() {
 		}
 		for i := 0; i < nTorn; i++ {
 			jobs = append(jobs, job{Torn: true, Idx: i})
+		}
+		for i := 0; i < nConc; i++ {
+			jobs = append(jobs, job{Conc: true, Idx: i})
 		}
 		for i := 0; i < nPlain; i++ {
 			jobs = append(jobs, job{Idx: i})
@@ -240,7 +262,7 @@ func main() {
 	close(ch)
 	wg.Wait()
 
-	for _, k := range []string{"P 0", "P 1", "P 2", "F 0", "F 1", "T 0", "T 1", "T 4"} {
+	for _, k := range []string{"P 0", "P 1", "P 2", "F 0", "F 1", "T 0", "T 1", "T 4", "C 0", "C 1", "C 2"} {
 		if s, ok := samples[k]; ok {
 			r.Sample(s)
 		}
@@ -248,6 +270,8 @@ func main() {
 	r.Set("plain_histories", nPlain)
 	r.Set("fault_histories", nFault)
 	r.Set("torn_histories", nTorn)
+	r.Set("concurrent_histories", nConc)
+	r.Set("concurrent_histories_fixed", min(nConc, c07.FixedConc))
 	r.Set("torn_histories_fixed", min(nTorn, c07.FixedTorn))
 	r.Set("worker_processes", nw)
 	os.RemoveAll(root)
@@ -337,7 +361,13 @@ func childMain(seed int64, templateDir, dir string) {
 				Mark:         func(fp string) { res.Marks[fp]++ },
 			},
 		}
-		if f[0] == "T" {
+		if f[0] == "C" {
+			ok, summary := run.RunConcurrent(seed, idx, 3)
+			run.Stats.Add("conc_histories_linearizable", b2i(ok))
+			if summary != nil && idx < 3 {
+				res.Samples = append(res.Samples, summary)
+			}
+		} else if f[0] == "T" {
 			runTorn(res, run, seed, env, idx)
 		} else if f[0] == "F" {
 			runFault(res, run, seed, env, idx)
